@@ -51,6 +51,7 @@ func init() {
 }
 
 func runC02(c *Ctx, r *Report) {
+	importFoundation(c, r, "C02", "netconf-reader")
 	importFoundation(c, r, "C02", "read-loop")
 	importFoundation(c, r, "C02", "transport-pipe")
 	r.Rule("C02/bounds", "every index/slice of the decoder satisfies 0<=i<len / 0<=lo<=hi<=len (len, not cap) on every path", 20)
